@@ -10,10 +10,11 @@ COND_MAX = 1e4
 
 class C09(Prop):
     id = 'C09'
-    level = 'exploration'      # bounded tier only in this module; becomes 'other' once the deductive tier is attached
+    level = 'other'            # deductive tier: pv/ded/<id>.py (picked up by Prop.deductive); this module is the bounded tier
     technique = ('run-time contract on the total-estimation copies (FactoredInference._setup, LocalInference._setup, public_inference.estimate_total) and on '
                  'estimate(..., total=T) against an independent dense pseudo-inverse oracle, swept over query kinds and sizes 1..64')
-    explanation = ('Bounded tier (labelled bounded): (1) estimate(ms, total=T) with the three FactoredInference solvers, LocalInference (convex oracle) and '
+    explanation = ('Deductive tier (pv/ded/C09.py): contracts pv/contracts/totals.py on the total-estimation copies (known total passed through, formula of the '
+                   'combination) discharged by z3. Bounded tier (labelled bounded): (1) estimate(ms, total=T) with the three FactoredInference solvers, LocalInference (convex oracle) and '
                    'PublicInference for several T, with measurements that imply a very different count: model.total == T exactly (public: weights sum to T), and '
                    'every model answer sums to model.total; (2) total omitted: for every size n in 1..64 and query kind in {identity, scaled, diagonal, prefix, '
                    'random full-rank square, tall, sparse full-rank, LinearOperator, None} noise-free answers of a dataset with N >= 1 records give total == N; '
@@ -34,9 +35,6 @@ class C09(Prop):
     quick_budget_s = 90
     thorough_budget_s = 600
 
-    def deductive(self, tier):
-        return []
-
     # ---------------------------------------------------------------- cases
     def cases(self, tier, seed):
         import numpy as np
@@ -48,7 +46,7 @@ class C09(Prop):
         # (2) noise-free sweep, diverse first: sizes interleaved
         sizes = list(range(1, 65))
         order = [sizes[i] for i in np.argsort([(n * 37) % 64 for n in sizes])]
-        reps = 1 if tier == 'quick' else 6
+        reps = 2 if tier == 'quick' else 6
         for rep in range(reps):
             for n in order:
                 for kind in FULL_KINDS + DEF_KINDS:
@@ -64,7 +62,7 @@ class C09(Prop):
                                    qseed=int(rng.randint(1 << 30)), seed=int(rng.randint(1 << 30)),
                                    N=int(rng.choice([1, 2, 17, 1000, 54321])), via='estimate' if (copy != 'public' and rng.rand() < 0.15) else 'setup')
         # (3) weighted combinations
-        nw = 600 if tier == 'quick' else 6000
+        nw = 1200 if tier == 'quick' else 6000
         for i in range(nw):
             k = int(rng.randint(2, 5))
             n = int(rng.choice([1, 2, 3, 5, 8, 13, 21, 34, 64]))
